@@ -827,14 +827,14 @@ theorem accepted_unicode (x y : PyVal) (hw : wf x) (h : toDb .unicode x = .ok y)
   · exact readable_of _ _ _ _ _ (roundtrip_none _) (by simp [toPy, unicodeV]) (norm_refl _ _)
   · exact readable_of _ _ _ _ _ (roundtrip_text _ _ (by decide) hw) (by simp [toPy, unicodeV]) (norm_refl _ _)
 
-theorem accepted_int (T : ColT) (hT : intFamily T) (x y : PyVal) (hk : knownBad T x = false)
-    (h : toDb T x = .ok y) : Readable T x y := by
+theorem accepted_int (T : ColT) (hT : intFamily T) (x y : PyVal) (hf : outsideFragment T x = false)
+    (hk : knownBad T x = false) (h : toDb T x = .ok y) : Readable T x y := by
   have ha := aff_intFamily T hT
   have hdb : toDb T x = intV x := by rcases hT with rfl | rfl | rfl | rfl | rfl <;> rfl
   have hpy : ∀ r, toPy T r = intV r := by intro r; rcases hT with rfl | rfl | rfl | rfl | rfl <;> rfl
   have hil : isIntLikeT T = true := by rcases hT with rfl | rfl | rfl | rfl | rfl <;> rfl
   rw [hdb] at h
-  cases x <;> simp [intV] at h <;> subst h
+  cases x <;> simp [intV, outsideFragment] at h hf <;> subst h
   · exact readable_of _ _ _ _ _ (roundtrip_none _) (by simp [hpy, intV]) (norm_refl _ _)
   · rename_i b
     exact readable_of _ _ _ (.int (if b then 1 else 0)) (.int (if b then 1 else 0)) (roundtrip_bool T b (Or.inl ha))
@@ -842,6 +842,17 @@ theorem accepted_int (T : ColT) (hT : intFamily T) (x y : PyVal) (hk : knownBad 
   · rename_i i
     have h64 : int64 i = true := by simp [knownBad, hil] at hk; exact hk.1
     exact readable_of _ _ _ _ _ (roundtrip_int T i (Or.inl ha) h64) (by simp [hpy, intV]) (norm_refl _ _)
+
+/-- a float given to an Int-family column: `int(value)` when the float is integral, then an ordinary int -/
+theorem readBack_int_of_float (T : ColT) (hT : intFamily T) (t : Str) (n : Int)
+    (hc : floatClass t = .integral n) (h64 : int64 n = true) : readBack T (.float (.lit t)) = .ok (.int n) := by
+  have hdb : toDb T (.float (.lit t)) = .ok (.int n) := by
+    rcases hT with rfl | rfl | rfl | rfl | rfl <;> simp [toDb, intV, intOfFloat, hc]
+  have h2 := readBack_int T hT n h64
+  have hdb2 : toDb T (.int n) = .ok (.int n) := by rcases hT with rfl | rfl | rfl | rfl | rfl <;> rfl
+  simp only [readBack, hdb2, Res.bind] at h2
+  simp only [readBack, hdb, Res.bind]
+  exact h2
 
 theorem accepted_bool (x y : PyVal) (h : toDb .bool x = .ok y) : Readable .bool x y := by
   have ha : aff .bool = .numeric := by decide
